@@ -247,7 +247,7 @@ impl<Mac: ByteArray<CRYPTO_SECRETBOX_MACBYTES> + Zeroize, Data: Bytes + Zeroize>
 
         crypto_secretbox_open_detached(
             message.as_mut_slice(),
-            self.tag.as_array(),
+            received_array(&self.tag, "tag")?,
             self.data.as_slice(),
             nonce.as_array(),
             secret_key.as_array(),
